@@ -201,7 +201,7 @@ def seeded(sel):
         killed = r["exit"] == 1 and r["violations"] > 0
         expect = meta.get("expected_by_quick", "kill")
         status = "KILLED" if killed else ("SURVIVED" if r["exit"] == 0 else "ERROR")
-        fine = (expect == "kill") == killed and status != "ERROR"
+        fine = status != "ERROR" and (expect == "any" or (expect == "kill") == killed)
         ok_all = ok_all and fine
         results.append(dict(id=sid, prop=prop, status=status, expected=expect, clauses=r["clauses"], wall_s=r["wall_s"], tail=r["tail"],
                             messages=r["messages"]))
